@@ -156,6 +156,21 @@ partial def loop (ops impl : Array String) (i : Nat) (st : DrvState) (out : IO.F
       if (words seg).getD 1 "" == "remember" then
         st'' := { st'' with prevOut := ((words seg).getD 2 "?", implLine) :: st''.prevOut.take 2000 }
         continue
+      if (words seg).getD 1 "" == "destdiffers" then
+        -- two consecutive dispatches of requests that are bound to no backend go to two different backends (strict
+        -- rotation over >= 2 backends); the same destination twice = a binding is being honoured
+        let id := (((words seg).headD "").splitOn "=").getD 1 "?"
+        match st''.prevOut.find? (fun e => e.1 == (words seg).getD 2 "?") with
+        | some (_, o) =>
+          let d0 := (words o).take 3
+          let d1 := (words implLine).take 3
+          if d0.head? == some "n=1" && d1.head? == some "n=1" && d0 == d1 then
+            IO.println s!"SPEC {i + 1} {id} unbound-requests-keep-reaching-the-same-backend"
+            s := s + 1
+        | none =>
+          IO.println s!"SPEC {i + 1} {id} destdiffers-without-remember"
+          s := s + 1
+        continue
       if (words seg).getD 1 "" == "sameas" then
         let id := (((words seg).headD "").splitOn "=").getD 1 "?"
         match st''.prevOut.find? (fun e => e.1 == (words seg).getD 2 "?") with
